@@ -205,6 +205,8 @@ class Rule(
         return self
 
     def assert_applies(self, evaluable: EvaluableArchitecture) -> None:
+        # has to be checked before the alias conversion, which removes the "anything" marker
+        self._assert_anything_only_used_with_should_not()
         self._configuration = self._convert_aliases(self._configuration)
         self._assert_required_configuration_present()
 
@@ -294,6 +296,9 @@ class Rule(
 
             raise ImproperlyConfigured(error_message)
 
+        self._assert_anything_only_used_with_should_not()
+
+    def _assert_anything_only_used_with_should_not(self) -> None:
         if (
             self._configuration.rule_object_anything
             and not self._configuration.should_not
